@@ -26,6 +26,8 @@ CallVerdict(e, call) ==
   \* an iterator consumed between other calls yields the elements of the stream, in order
   ELSE IF call.py.norm # call.rs.norm THEN "normalized_object"
   ELSE IF call.py.interleaved # call.rs.interleaved THEN "interleaved_iterator"
+  \* a window whose bounds are given differently (aware start + naive end, naive start + aware end)
+  ELSE IF call.py.intervals_mixed # call.rs.intervals_mixed THEN "intervals_mixed_bounds"
   ELSE "ok"
 
 Verdict(e) ==
